@@ -114,8 +114,8 @@ type memHandle struct {
 func (fs *MemFS) OpenFile(name string, flag int, perm os.FileMode) (Handle, error) {
 	p := clean(name)
 	if fs.dirs[p] {
-		if flag&(os.O_WRONLY|os.O_RDWR) != 0 {
-			return nil, pathErr("open", name, syscall.EISDIR)
+		if flag&os.O_CREATE != 0 && flag&os.O_EXCL != 0 {
+			return nil, pathErr("open", name, syscall.EEXIST)
 		}
 		return nil, pathErr("open", name, syscall.EISDIR)
 	}
@@ -292,6 +292,9 @@ func (h *memHandle) Write(b []byte) (int, error) {
 	if h.flag&(os.O_WRONLY|os.O_RDWR) == 0 {
 		return 0, syscall.EBADF
 	}
+	if len(b) == 0 {
+		return 0, nil
+	}
 	if h.flag&os.O_APPEND != 0 {
 		h.off = int64(len(h.ino.Data))
 	}
@@ -311,11 +314,11 @@ func (h *memHandle) Read(b []byte) (int, error) {
 	if h.closed {
 		return 0, os.ErrClosed
 	}
-	if h.flag&os.O_WRONLY != 0 {
-		return 0, syscall.EBADF
-	}
 	if len(b) == 0 {
 		return 0, nil
+	}
+	if h.flag&os.O_WRONLY != 0 {
+		return 0, syscall.EBADF
 	}
 	if h.off >= int64(len(h.ino.Data)) {
 		return 0, io.EOF
@@ -326,19 +329,19 @@ func (h *memHandle) Read(b []byte) (int, error) {
 }
 
 func (h *memHandle) ReadAt(b []byte, off int64) (int, error) {
+	if off < 0 {
+		return 0, syscall.EINVAL
+	}
+	if len(b) == 0 {
+		return 0, nil
+	}
 	if h.closed {
 		return 0, os.ErrClosed
 	}
 	if h.flag&os.O_WRONLY != 0 {
 		return 0, syscall.EBADF
 	}
-	if off < 0 {
-		return 0, syscall.EINVAL
-	}
 	if off >= int64(len(h.ino.Data)) {
-		if len(b) == 0 {
-			return 0, nil
-		}
 		return 0, io.EOF
 	}
 	n := copy(b, h.ino.Data[off:])
